@@ -211,7 +211,9 @@ func runScope(c ScopeCase) (pbt.Outcome, error) {
 		if st.Sub != nil {
 			s = s.SubScope(string(*st.Sub))
 		} else {
-			s = s.Tagged(st.Tags.Std())
+			tg := st.Tags.Std()
+			s = s.Tagged(tg)
+			pbt.Spoil(tg)
 		}
 	}
 	m := string(c.Metric)
